@@ -10,6 +10,7 @@ Definition qout_sx (o : qout) : sx :=
   | QOne e => SL [SZ 1; entry_sx e]
   | QMany l => SL [SZ 2; SL (map entry_sx l)]
   | QBool b => SL [SZ 3; SB b]
+  | QRefused => SL [SZ 98]
   end.
 
 Definition dec_op (x : sx) : option qop :=
@@ -21,6 +22,7 @@ Definition dec_op (x : sx) : option qop :=
   | SL [SZ 4; SZ k] => Some (QPeekN k)
   | SL [SZ 5] => Some QEmpty
   | SL [SZ 6] => Some QDropLast
+  | SL [SZ 7] => Some QPushForeign
   | _ => None
   end.
 Definition dec_input (x : sx) : option (bool * list qop) :=
